@@ -16,7 +16,7 @@ IDS = arg("ids", "*").split(",")
 CHECKS = arg("checks", "own")
 NW = int(arg("workers", "8"))
 BASE = "/verif/" + KIND
-POOL = "/tmp/jsv-wt"
+POOL = os.environ.get("JSV_POOL", "/tmp/jsv-wt")
 ALL = ["C%02d" % i for i in range(1, 21)]
 
 def sh(cmd, cwd=None, env=None, timeout=3600):
